@@ -173,6 +173,17 @@ def judge_history(ctx, b, runs, case, label, nontrivial_key=None, judge_cells=Tr
             mid = GEN.Q('Time', pt.time[1].value, pt.time[1].unit)
         ok = CE.check_snapshot(ctx, b, tr, mid, None, units, case, judge_values=judge_cells) and \
             CE.check_export(ctx, b, tr, os.path.join(ctx.scratch, 'c17exp'), rng.choice(SI.units('Time')), units, case, judge_values=judge_cells)
+        if ok and hash(label) % 3 == 0:
+            # the printing path of snapshot (default print_data=True) must not fail either
+            import contextlib
+            import io
+            try:
+                with contextlib.redirect_stdout(io.StringIO()):
+                    pt.snapshot(target_time=B.mkq(mid))
+                ctx.count('snapshots_printed')
+            except Exception as ex:
+                ctx.violation('C17:snapshot-raised', {'print_data': True, 'exception': type(ex).__name__ + ': ' + str(ex)[:200], 'config': label}, case)
+                return 'bad'
         if not ok:
             for v in ctx.violations:
                 if not v['monitor'].startswith(('C17:', 'harness')):
